@@ -1,0 +1,21 @@
+//go:build verif
+
+package ioutil
+
+// Contracts for the gvc verifier (/verif). Comment-only; never compiled into
+// a normal build.
+
+// CopyBufferPool is io.CopyBuffer with a pooled buffer (trusted). Stated for a
+// source made by io.LimitReader: at most N bytes are copied, they are the next
+// bytes of the underlying reader, which advances by what was copied; a nil
+// error does not mean that N bytes were copied (io.Copy treats EOF as success).
+//gvc:func CopyBufferPool
+//gvc:  trusted
+//gvc:  params dst src
+//gvc:  results n err
+//gvc:  modifies dst.#sink, src@io.LimitedReader.N, field(src, "io.LimitedReader.R").#pos
+//gvc:  ensures cnt: 0 <= n && (old(field(src, "io.LimitedReader.N")) >= 0 ==> n <= old(field(src, "io.LimitedReader.N")))
+//gvc:  ensures adv: field(src, "io.LimitedReader.R").#pos == old(field(src, "io.LimitedReader.R").#pos) + n
+//gvc:  ensures out: dst.#wlen == old(dst.#wlen) + n
+//gvc:  ensures bytes: forall(k, 0, n, dst.#wdata[old(dst.#wlen) + k] == field(src, "io.LimitedReader.R").#data[old(field(src, "io.LimitedReader.R").#pos) + k])
+//gvc:end
